@@ -32,7 +32,7 @@ from ..core import Ctx, ExtractError
 
 ID = "C09"
 LEVEL = "proof"
-STRENGTH = "partial"     # clauses false of the code (F10, F13) are negated, "never crashes" and the staged upper bounds outside the pause rest on oracle/tie
+STRENGTH = "partial"     # no clause is negated any more (F10, F13 repaired); "never crashes" and the staged upper bounds of the cycle-driven stops (deletion mark, mismatch) rest on oracle/tie
 ENGINES = ["lean-model", "pyextract", "kopfsim"]
 TIE = ("T: stage chain of stop_daemons + phase list of stop_daemon (AST → Lean, re-proved equal to the model); "
        "S: every process_spawning_cause pass and every daemon-killer stop_daemon run of whole-operator simulations "
@@ -57,27 +57,38 @@ LEVEL_TEXT = (
     "`daemon_nonyielding_retry_spins` (F12, code before b04c26c), `idle_only_spins(+_witness)` (F1, code "
     "before 6ccf081); the corpus cases F1/F12*.json are passing regressions. 'Never crashes' has NO theorem: oracle on every history (no exception out of the "
     "killer / processing / operator, operator alive) + tie `killer_iterates_snapshots` + corpus regressions (F11 fixed by 06bf1c1). "
-    "'Asked to stop when the object disappears' is false for DELETED events without deletionTimestamp: negation proved "
-    "(gone_unmarked_not_stopped, orphan_never_stopped, gone_unmarked_witness) and reproduced (finding F10, open). 'Asked to stop when the "
-    "operator exits' is false for what a worker (re)spawns during the depletion, after the killer's only exit sweep: negation proved "
-    "(respawned_while_exiting, no_killer_after_final_sweep, exit_respawn_witness) and reproduced (finding F13, open). NOT theorems "
-    "(oracle upper-bound clauses O8/O9 + ties only): that cancellation/abandonment DO happen on deletion / mismatch (cycles → delays → "
-    "touch → next cycle) and on exit. Runtime residue the "
+    "'Asked to stop when the object disappears' (F10 repaired by 25da2b9) and 'when the operator exits' (F13 repaired by 1d3a667) "
+    "are now UNGUARDED invariants of every reachable state of the tree variant (`stopsGone`, `marksExiting`: both tied to the AST of "
+    "daemons.py / processing.py / inventory.py and compared on every observed cycle / DELETED event / sweep): "
+    "stopped_when_object_disappears (past the instant of the DELETED event — with or without the deletion mark — whatever still runs "
+    "carries RESOURCE_DELETED from a stop_daemon started at that instant, cancelled by +backoff if there is a timeout, abandoned by "
+    "+backoff+timeout, or the clock has not passed these yet), gone_at_deleted_event + nothing_spawned_for_gone_object, "
+    "stopped_when_operator_exits (the same for OPERATOR_EXITING from the instant the killer's exit sweep began, for every instance of a "
+    "known memory), nothing_spawned_while_exiting (no label list spawns once the operator is marked as exiting), "
+    "no_killer_after_final_sweep. The former negations are kept as HISTORICAL theorems about the old variants "
+    "(`stopsGone = false`: gone_unmarked_not_stopped, orphan_never_stopped, gone_unmarked_witness; `marksExiting = false`: "
+    "respawned_while_exiting, exit_respawn_witness); corpus F10.json / F13.json are passing regressions. NOT theorems "
+    "(oracle upper-bound clauses O8/O9 + ties only): that cancellation/abandonment DO happen when the stop is driven by processing "
+    "cycles (deletion mark / mismatch: cycles → delays → touch → next cycle). Runtime residue the "
     "model cannot exhibit: real threads of sync daemons, CPython's scheduling of same-instant callbacks.")
 THEOREMS = [("Kopf.Props.C09", "Kopf.C09." + n) for n in [
     "at_most_one", "spawn_only_when_none", "started_on_match", "self_exit_is_remembered", "no_restart_after_self_exit",
     "final_failure_is_remembered", "no_respawn_after_final_failure",
     "staged", "staged_monotone", "stop_reasons",
     "first_round_within_period", "paused_daemon_is_cancelled", "paused_daemon_is_abandoned", "never_cancelled_without_timeout",
+    "started_unless_blocked",
+    "stopped_when_operator_exits", "nothing_spawned_while_exiting", "no_killer_after_final_sweep",
+    "stopped_when_object_disappears", "gone_at_deleted_event", "nothing_spawned_for_gone_object",
+    "respawned_while_exiting", "exit_respawn_witness",
     "gone_unmarked_not_stopped", "orphan_never_stopped", "gone_unmarked_witness",
-    "respawned_while_exiting", "no_killer_after_final_sweep", "exit_respawn_witness",
     "progress", "daemon_progress",
     "nonyielding_retry_spins", "nonyielding_retry_witness", "daemon_nonyielding_retry_spins",
     "idle_only_spins", "idle_only_spins_witness"]]
 TIE_THEOREMS = [("Kopf.Tie.C09", "Kopf.C09.Tie." + n) for n in ["stage_eq", "killer_phases_eq", "timers_force_none",
                                                                          "timer_loop_guarded", "killer_iterates_snapshots",
                                                                          "sweep_unconditional", "killer_period_eq",
-                                                                         "loops_yield_each_iteration", "timer_failure_is_forever"]]
+                                                                         "loops_yield_each_iteration", "timer_failure_is_forever",
+                                                                         "stops_gone", "marks_exiting"]]
 RULE = ("seeded whole-operator histories: 1-2 objects, 1-3 daemons/timers (modes obey/cancel/ignore/exit; cancellation_backoff/"
         "timeout in {None,0,small,large}; timers with interval/idle/both/neither, sharp, initial_delay), optional label filter and "
         "change handler, timeline of label toggles, spec edits, graceful deletion, deletion before the finalizer lands, forced "
@@ -97,7 +108,9 @@ ASSUMPTIONS = ["settings.background.instant_exit_timeout is None (the default): 
                "assumption; timers have idle > 0 (an `idle <= 0` makes the after-run idle loop spin)",
                "urgency of the killer's own timers is part of the model (`tickOk`): asyncio fires due timers; CPU starvation and the "
                "order of same-instant callbacks are out of scope (a daemon listed at the very instant of a round counts from the next)",
-               "0 <= cancellation_backoff, 0 <= cancellation_timeout (hypotheses of the two pause invariants)"]
+               "0 <= cancellation_backoff, 0 <= cancellation_timeout (hypotheses of the pause / exit / disappearance invariants)",
+               "the background stop_daemon tasks of a gone object and of the exit sweep start in the instant they are created "
+               "(`tickOk`; compared on every observed DELETED event and sweep)"]
 
 F1_SIG = {"site": "daemons._timer", "shape": "idle-only timer spins without suspending after its stopper is set"}
 F13_SIG = {"site": "processing.process_spawning_cause",
@@ -536,7 +549,8 @@ def instrumented(sim: Any, R: Recorder) -> Iterator[None]:
                     rec = R.by_stopper.get(id(d.stopper))
                     if rec is not None:
                         listed.append({"sid": rec["sid"], "reasons": _names(d.stopper.reason)})
-            R.log("sweep", lt=_ticks(asyncio.get_running_loop().time()), listed=listed)
+            # inside the killer's `finally:` (entered by the cancellation) an exception is being handled: the exit sweep
+            R.log("sweep", lt=_ticks(asyncio.get_running_loop().time()), listed=listed, final=sys.exc_info()[0] is not None)
         return o_iter(self)
 
     inventory.ResourceMemories.iter_all_daemon_memories = iter_all_daemon_memories  # type: ignore[assignment]
@@ -1001,6 +1015,10 @@ def tie_requests(sc: dict, tr: dict) -> tuple[list, list, list, dict]:
                 c = cur.get(d["sid"])
                 if c is None or sorted(c["reasons"]) != sorted(d["reasons"]) or c["when"] != d["when"]:
                     stats["log_gaps"].append({"cyc": e["cyc"], "hid": hid, "snapshot": d, "replayed": c})
+    final_sweeps: dict[int, list[dict]] = {}
+    for x in ev:
+        if x["e"] == "sweep" and x.get("final"):
+            final_sweeps.setdefault(x["inc"], []).append(x)
     # ---- cycles ----------------------------------------------------------------------------------
     for e0 in ev:
         if e0["e"] != "cyc0":
@@ -1067,13 +1085,30 @@ def tie_requests(sc: dict, tr: dict) -> tuple[list, list, list, dict]:
                          "exitAfter": ended_after_turn(sid)})
             himpl.append({"id": hid, "spawned": spawned is not None, "run": inst_json(post, e1["seq"]),
                           "forever": hid in e1["post"]["forever"]})
+        # the operator is exiting for this cycle: the killer's exit sweep of this incarnation has begun (observed, not read
+        # from the memory's own mark)
+        exiting = any(x["seq"] < e0["seq"] for x in final_sweeps.get(e0["inc"], []))
         req = ["C09.cycle", {"now": e0["lt"], "marked": e0["marked"], "paused": paused, "deleted": e0["etype"] == "DELETED",
-                             "handlers": hreq}]
+                             "exiting": exiting, "handlers": hreq}]
         impl = {"handlers": himpl, "delays": sorted(e1["delays"]), "known": e1["post"]["known"]}
         reqs.append(req)
         impls.append(impl)
         where.append({"kind": "cycle", "cyc": e0["cyc"], "t": e0["t"], "uid": uid})
         stats["cycles"] += 1
+    # ---- the DELETED event: `stop_daemon(RESOURCE_DELETED)` starts at that very instant for whatever runs for the object --
+    for e0 in ev:
+        if e0["e"] != "cyc0" or e0["etype"] != "DELETED":
+            continue
+        clear = [d for d in e0["pre"]["running"].values() if d["sid"] in inst and
+                 (inst[d["sid"]]["t_end"] is None or inst[d["sid"]]["t_end"] > e0["t"])]
+        if not clear:
+            continue
+        started = {x["sid"] for x in ev if x["e"] == "k0" and x["reason"] == ["RESOURCE_DELETED"] and x["lt"] == e0["lt"]
+                   and x["seq"] > e0["seq"]}
+        reqs.append(["C09.gone", [{"reasons": _model_reasons(d["reasons"])} for d in clear]])
+        impls.append([d["sid"] in started for d in clear])
+        where.append({"kind": "gone", "t": e0["t"], "uid": e0["uid"], "running": clear})
+        stats["gone"] = stats.get("gone", 0) + 1
     # ---- daemon-killer runs -------------------------------------------------------------------------
     for e0 in ev:
         if e0["e"] != "k0" or e0["sid"] not in inst:
@@ -1321,10 +1356,6 @@ def oracle(ctx: Ctx, sc: dict, res: dict) -> dict:
     def t_end(i: dict) -> float:
         return i["t_end"] if i["t_end"] is not None else float("inf")
 
-    def orphaned(i: dict) -> bool:
-        o = objs.get(i["uid"])
-        return bool(o and o["gone"] is not None and o["marked"] is None and i["t_spawn"] <= o["gone"] < t_end(i))
-
     # ---- O1/O6: never two live instances; no respawn before the previous instance has ended ------------------------
     for key, lst in by_key.items():
         for a, b in zip(lst, lst[1:]):
@@ -1442,6 +1473,9 @@ def oracle(ctx: Ctx, sc: dict, res: dict) -> dict:
             expect_flag(i, o["marked"], "RESOURCE_DELETED", "the object was marked for deletion", {**lateness, "reason": "RESOURCE_DELETED"})
         if o["gone"] is not None and o["marked"] is None and listening(i["inc"], o["gone"], o["gone"] + DELTA):
             expect_flag(i, o["gone"], None, "the object disappeared (DELETED without deletionTimestamp)", dict(F10_SIG))
+        elif o["gone"] is not None and listening(i["inc"], o["gone"], o["gone"] + DELTA):
+            expect_flag(i, o["gone"], None, "the object disappeared (DELETED, was marked for deletion)",
+                        {**lateness, "reason": "RESOURCE_DELETED", "when": "the object is gone"})
         vs = [v for v in o["versions"] if v["event"] != "DELETED"]
         for prev, cur in zip(vs, vs[1:]):
             T = cur["t"]
@@ -1450,8 +1484,6 @@ def oracle(ctx: Ctx, sc: dict, res: dict) -> dict:
                     and not (o["gone"] is not None and o["gone"] <= T + DELTA) and not (o["marked"] is not None and o["marked"] <= T + DELTA)
                 if stable and listening(i["inc"], T, T + DELTA):
                     expect_flag(i, T, "FILTERS_MISMATCH", "the object stopped matching the filters", {**lateness, "reason": "FILTERS_MISMATCH"})
-        if orphaned(i):
-            continue        # reported once, above, as the disappearance
         for p0, _p1 in iv["pauses"]:
             if alive_inc(i["inc"], p0 + DELTA):
                 expect_flag(i, p0, "OPERATOR_PAUSING", "the operator was paused", {**lateness, "reason": "OPERATOR_PAUSING"})
@@ -1510,7 +1542,7 @@ def oracle(ctx: Ctx, sc: dict, res: dict) -> dict:
     tick = 1.0 / 64
     for i in inst.values():
         h, iv = hs.get(i["hid"]), incs.get(i["inc"])
-        if h is None or iv is None or h["kind"] != "daemon" or orphaned(i):
+        if h is None or iv is None or h["kind"] != "daemon":
             continue
         o = h.get("opts", {})
         backoff = float(o.get("cancellation_backoff") or 0)
@@ -1519,11 +1551,17 @@ def oracle(ctx: Ctx, sc: dict, res: dict) -> dict:
         windows = [(p0, p1, "OPERATOR_PAUSING", KILLER_PERIOD, "the operator was paused") for p0, p1 in iv["pauses"]]
         if iv["how"] == "stop" and iv.get("stop_done") is not None:
             windows.append((iv["until"], iv["stop_done"], "OPERATOR_EXITING", 0.0, "the operator exits"))
+        ob = objs.get(i["uid"])
+        if ob is not None and ob["gone"] is not None and i["t_spawn"] <= ob["gone"]:
+            # no cycle comes for a gone object: only the background `stop_daemon` can go through the stages (until the exit)
+            windows.append((ob["gone"], iv["until"], "RESOURCE_DELETED", 0.0, "the object disappeared"))
         for w0, w1, reason, period, why in windows:
-            tf = next((e["t"] for e in i["sets"] if reason in e["reason"] and w0 <= e["t"] < w1), None)
+            tf = next((e["t"] for e in i["sets"] if reason in e["reason"] and w0 <= e["t"] < w1
+                       and (reason != "RESOURCE_DELETED" or e["site"] == "stop_daemon")), None)
             if tf is None:
                 continue
-            who = next(e["site"] for e in i["sets"] if reason in e["reason"] and e["t"] == tf)
+            who = next(e["site"] for e in i["sets"] if reason in e["reason"] and e["t"] == tf
+                       and (reason != "RESOURCE_DELETED" or e["site"] == "stop_daemon"))
             dl_c = tf + period + backoff + tick
             dl_a = tf + period + backoff + timeout + tick
             upto = min(w1, iv["until"] if reason == "OPERATOR_PAUSING" else float("inf"))
@@ -1933,7 +1971,7 @@ def _shape(req: list, impl: Any) -> tuple[Any, bool]:
                        None if pre is None else pre["reasons"], h["ex1"], h["ex2"], o["spawned"], added,
                        bool(post and post["cancelled"] and not (pre and pre["cancelled"])), o["forever"]])
             busy = busy or o["spawned"] or bool(added) or (pre is not None and post is None)
-        return ["cycle", r["marked"], r["paused"], r["deleted"], hs, len(impl["delays"])], busy
+        return ["cycle", r["marked"], r["paused"], r["deleted"], r["exiting"], hs, len(impl["delays"])], busy
     if req[0] == "C09.kplan":
         r = req[1]
         return ["killer", r["backoff"] is not None, r["timeout"] is not None, r["reason"], r["done"], [x[1] for x in impl]], True
@@ -1941,6 +1979,8 @@ def _shape(req: list, impl: Any) -> tuple[Any, bool]:
         return ["due", (req[1]["t"] - req[1]["p"]) // 64, req[1]["since"] >= req[1]["p"]], True
     if req[0] == "C09.sweep":
         return ["round", sorted({tuple(d["reasons"]) for d in req[1]}), sorted(set(impl))], True
+    if req[0] == "C09.gone":
+        return ["gone", sorted({tuple(d["reasons"]) for d in req[1]}), sorted(set(impl))], True
     return ["exit", req[1]["reasons"], impl["forever"]], True
 
 
@@ -2020,7 +2060,7 @@ def _run_batch(ctx: Ctx, scenarios: list[dict], names: list[str | None], oracle_
             rq, im, wh, st = tie_requests(sc, tr)
             for g in st["log_gaps"][:3]:
                 ctx.tie_fail("a stopper changed without a logged event (instrumentation gap)", {"scenario": sc, **g})
-            for key in ("cycles", "skipped_concurrent", "killer", "killer_incomplete", "exits", "rounds", "dues"):
+            for key in ("cycles", "skipped_concurrent", "killer", "killer_incomplete", "exits", "rounds", "dues", "gone"):
                 ctx.count("tie_units", key, st.get(key, 0))
             for r_, i_, w_ in zip(rq, im, wh):
                 reqs.append(r_)
@@ -2144,7 +2184,7 @@ def search(ctx: Ctx, broken: list) -> None:
             gen.insert(0, sc)
     for k in range(0, len(gen), CHUNK):
         _run_batch(ctx, gen[k:k + CHUNK], [None] * len(gen[k:k + CHUNK]), oracle_only=True)
-        known = [F1_SIG, F10_SIG, F11_SIG, F12_SIG]
+        known = _open_signatures()
         if any(f.kind == "oracle" and f.signature not in known for f in ctx.failures):
             return
 
